@@ -61,4 +61,23 @@ pub mod verif_hooks {
     pub use crate::stream_tx_segments::{OnAckResult, PopExpiredProbe, Segments};
     pub use crate::traits::{DefaultUtpEnvironment, UtpEnvironment};
     pub use crate::utils::{prepare_2_ioslices, seq_nr_offset};
+
+    use std::cell::RefCell;
+
+    thread_local! {
+        static OBSERVER: RefCell<Option<Box<dyn Fn(&str)>>> = const { RefCell::new(None) };
+    }
+
+    /// Install (or remove) a per-thread observer that is told when a connection task ends.
+    pub fn set_observer(f: Option<Box<dyn Fn(&str)>>) {
+        OBSERVER.with(|o| *o.borrow_mut() = f);
+    }
+
+    pub(crate) fn emit(event: &str) {
+        OBSERVER.with(|o| {
+            if let Some(f) = o.borrow().as_ref() {
+                f(event)
+            }
+        });
+    }
 }
